@@ -465,7 +465,11 @@ def faulty_input_cases(exe, w, rnd):
                 if p.poll() is not None:
                     break
                 time.sleep(0.002)
-            os.close(master)  # hang-up: the next read on the slave fails with EIO
+            # hang-up. A read that is blocked at this moment fails with EIO; one that starts afterwards
+            # sees end-of-file. Both are legitimate (which one happens is a race the reader cannot
+            # control), so both outcomes are accepted below; the pause makes the error path the usual one.
+            time.sleep(0.08)
+            os.close(master)
             out = p.stdout.read()
             err = p.stderr.read()
             rc = p.wait()
@@ -487,7 +491,29 @@ def faulty_input_cases(exe, w, rnd):
                 else:
                     hx = w.out(fname, "hash", None, None, 0, 32).hex()
                 exp += hx.encode() + b"  " + fname.encode() + b"\n"
-            if rc == 0 or out != exp:
+            # outcome B: the pty simply ended (EOF): then its own line must be there too, with the hash
+            # of the delivered bytes, and the exit status is 0
+            exp_eof = b""
+            for o in order:
+                if o == "pty":
+                    if "--keyed" in flags:
+                        hx = b3spec.xof(payload, mode="keyed", key=key).hex()
+                    elif "--length" in flags:
+                        hx = b3spec.xof(payload, seek=5, length=70).hex()
+                    else:
+                        hx = b3spec.xof(payload).hex()
+                    exp_eof += hx.encode() + b"  " + ptyname.encode() + b"\n"
+                else:
+                    fname = good[o]
+                    if "--keyed" in flags:
+                        hx = w.out(fname, "keyed", key, None, 0, 32).hex()
+                    elif "--length" in flags:
+                        hx = w.out(fname, "hash", None, None, 5, 70).hex()
+                    else:
+                        hx = w.out(fname, "hash", None, None, 0, 32).hex()
+                    exp_eof += hx.encode() + b"  " + fname.encode() + b"\n"
+            classes.add("faulty-input/outcome-%s" % ("eof" if rc == 0 else "error"))
+            if not ((rc != 0 and out == exp) or (rc == 0 and out == exp_eof)):
                 v.append(("C12/hash/input-after-failed-input", "b3sum %s where %s delivers %d bytes and then fails with EIO: exit %s, stdout %r, expected exactly the lines of the good inputs %r (stderr %r)" % (argv, ptyname, len(payload), rc, out[:300], exp[:300], err[-200:])))
     return v, n, classes
 
